@@ -49,6 +49,10 @@ def main(argv=None):
     ap.add_argument("--only", default=None)
     ap.add_argument("-v", action="store_true")
     a = ap.parse_args(argv)
+    import logging
+    import warnings
+    logging.disable(logging.CRITICAL)
+    warnings.simplefilter("ignore")
     prop = a.prop.upper()
     tier = a.tier if a.tier in ("quick", "thorough") else "quick"
     seed = int(os.environ.get("VERIF_SEED", "0") or 0)
